@@ -4,7 +4,8 @@
    the hand-written driver.  No Extract Constant. *)
 From Coq Require Extraction.
 From Coq Require Import ExtrOcamlBasic.
-From ASModel Require Import Base SetMatch SrcLoc Report PathRes Tokens Ast IR Expand Nodes Print Binders.
+From ASModel Require Import Base SetMatch SrcLoc Report PathRes Tokens Ast IR Expand Nodes Print Binders Values Sem Spec.
+From ASProofs Require Import SemP.
 Extraction Language OCaml.
 Set Extraction KeepSingleton.
 Extraction "model.ml"
@@ -13,4 +14,5 @@ Extraction "model.ml"
   SrcLoc.linecol SrcLoc.prefix_len SrcLoc.is_boundary SrcLoc.blen
   Report.error_label Report.node_display Report.fallback_display
   PathRes.absolute_source_path PathRes.absolute_source_path_old PathRes.components
-  Print.expand_top Nodes.gen_nodes Nodes.location Expand.expand Nodes.node_kind_of Binders.stmt_binders Binders.reserved.
+  Print.expand_top Nodes.gen_nodes Nodes.location Expand.expand Nodes.node_kind_of Binders.stmt_binders Binders.reserved
+  Sem.exec Spec.frontier Values.debug SemP.pat_ok Report.node_display.
